@@ -31,6 +31,13 @@ DEFDOCS = ["<!DOCTYPE r [<!ATTLIST r d CDATA 'dv'>]><r xmlns:p='urn:u1' id='1'><
            "<!DOCTYPE r [<!ATTLIST r d NMTOKENS ' 1  2 '>]><r><a/><b id='3'/></r>",
            "<!DOCTYPE r [<!ATTLIST a q CDATA #REQUIRED>]><r><a/><b><a q='1'/></b></r>"]
 DEFSEL = ["//@d", "//@p:e", "//a/@p:e", "//@q", "//*[@d]", "//a[@p:e]", "//@d | //a", "//@q | //b", "//*[@q]/@q", "/r/@d | //a/@x"]
+DECLDOCS = ['<?xml version="1.0" encoding="UTF-8" standalone="yes"?><!DOCTYPE r [<!NOTATION n PUBLIC "-//N//EN"><!NOTATION m SYSTEM "s">'
+            '<!NOTATION o PUBLIC "p" "s"><!ENTITY e "v"><!ENTITY x SYSTEM "x.ent"><!ENTITY y PUBLIC "p" "y.ent" NDATA n><!ENTITY z "">'
+            '<!ELEMENT r (a|b)*><!ELEMENT a (#PCDATA)><!ATTLIST r xml:lang CDATA "en" k NOTATION (n|m) #IMPLIED><!-- c --><?p d?>]>'
+            '<r><a>&e;</a><b/></r><!--t-->',
+            '<!DOCTYPE p:r PUBLIC "-//X//EN" "x.dtd" [<!ATTLIST p:r a CDATA #IMPLIED xmlns:p CDATA "urn:u1" p:b (u|v) "u"><!ELEMENT p:r ANY>]>'
+            '<p:r><a/><b>t</b></p:r>',
+            "<!DOCTYPE r SYSTEM 's.dtd' [<!ENTITY q 'say \"hi\"'><!ENTITY s \"it's\"><!ATTLIST r d CDATA '&q;'>]><r><a>&q;&s;</a><b/></r>"]
 BADDOCS = ["", "<a>", "<a></b>", "text", "<a/><b/>", "<a/>trail", "<a x='1' x='2'/>", "<a>&nosuch;</a>", "﻿<a/>", "<a>\x01</a>"]
 
 
@@ -118,6 +125,25 @@ def gen(rng, thorough):
                   "//entry", "//p:entry/@id", "//x/entry/@id", "//entry[attribute::id='e1']"):
             cases.append(("xq", feed, bnd, e, ""))
             cases.append(("xe", feed, bnd, e, "x"))
+    # (one defaulted attribute per element at most: several of them collapse into one in a node-set, the recorded finding
+    # default-attr-order of C05/C07, which is not this property's subject)
+    # every kind of declaration in the internal subset, an XML declaration, an external identifier on the DOCTYPE: whatever is
+    # selected and rewritten, all of it is written back as it was (round-6 seed C17-G lost the identifier of a notation declared
+    # by public identifier alone)
+    for dd in DECLDOCS:
+        for e in ("/", "/*", "//a", "//b", "//@*", "//a/text()", "count(//*)", "//*[last()]"):
+            cases.append(("xq", dd, XP.BINDINGS, e, ""))
+            for v in ("z", "<k/>", ""):
+                cases.append(("xe", dd, XP.BINDINGS, e, v))
+    # at the nesting limit of the parser: a replacement that would put an element below it is refused (error, nothing printed),
+    # one that stays within is written and parses back (round-6 seed C17-H measured the height of the inserted element in edges)
+    lim = lib.XML_CONSTS.get("MAX_ELEMENT_DEPTH")
+    if lim:
+        for depth in (lim, lim - 1, lim - 2):
+            chain = "<a>" * depth + "t" + "</a>" * depth
+            for v in ("<x/>", "a<x>b<y /></x>", "u", "<x><y><z/></y></x>", ""):
+                cases.append(("xe", chain, "", "//a[not(*)]", v))
+            cases.append(("xq", chain, "", "//a[not(*)]", ""))
     # attributes supplied by attribute-list defaults
     for dd in DEFDOCS:
         for e in DEFSEL:
